@@ -47,6 +47,9 @@ func runC08(c *core.Ctx) {
 		switch r.Intn(4) {
 		case 0:
 			w, h = r.Range(1, 70), r.Range(1, 5)
+			if r.Chance(1, 6) {
+				w, h = r.Range(60, 150), r.Range(60, 150) // thousands of cells
+			}
 		case 1:
 			w, h = r.Range(1, 5), r.Range(1, 70)
 		case 2:
